@@ -15,17 +15,41 @@ def scalar(rng, nulls=False, pool=None):
     return rng.choice(pool)
 
 
-def tree(rng, depth=3, fan=3, nulls=False, root=None, pool=None, keys=None):
-    """Random JSON-like tree. root in (None,'map','list')."""
+BIGKEYS = ['k%02d' % i for i in range(24)] + ['ключ', 'a-very-long-key-name-' + 'x' * 40, 'Key', 'KEY', 'z9', '_', 'k.dot', 'UPPER_lower-1']
+
+
+def tree(rng, depth=3, fan=3, nulls=False, root=None, pool=None, keys=None, _top=True):
+    """Random JSON-like tree. root in (None,'map','list').  About one call in 25 is scaled up (deeper, or wider with
+    more distinct keys, or with a long list) so that size-dependent behaviour (slice growth, deep recursion, many keys)
+    is reached; the size is capped at about 400 nodes."""
     keys = keys or KEYS
+    budget = [400]
+    if _top and rng.random() < 0.04:
+        mode = rng.choice(['deep', 'wide', 'longlist'])
+        if mode == 'deep':
+            depth, fan = depth + rng.choice([2, 3, 4]), 2
+        elif mode == 'wide':
+            depth, fan = min(depth, 2), fan * rng.choice([3, 5])
+            keys = list(keys) + BIGKEYS
+        t = _tree(rng, depth, fan, nulls, root or ('map' if mode == 'longlist' else None), pool, keys, budget)
+        if mode == 'longlist' and isinstance(t, dict):
+            t[rng.choice(keys)] = [scalar(rng, False, pool) for _ in range(rng.randint(17, 40))]
+        return t
+    return _tree(rng, depth, fan, nulls, root, pool, keys, budget)
+
+
+def _tree(rng, depth, fan, nulls, root, pool, keys, budget):
+    budget[0] -= 1
+    if budget[0] <= 0:
+        return scalar(rng, nulls, pool) if root is None else ({} if root == 'map' else [])
     r = rng.random()
     if root == 'map' or (root is None and depth > 0 and r < 0.45):
         n = rng.randint(0 if root is None else 1, fan)
         ks = rng.sample(keys, min(n, len(keys)))
-        return {k: tree(rng, depth - 1, fan, nulls, None, pool, keys) for k in ks}
+        return {k: _tree(rng, depth - 1, fan, nulls, None, pool, keys, budget) for k in ks}
     if root == 'list' or (root is None and depth > 0 and r < 0.7):
         n = rng.randint(0 if root is None else 1, fan)
-        return [tree(rng, depth - 1, fan, nulls, None, pool, keys) for _ in range(n)]
+        return [_tree(rng, depth - 1, fan, nulls, None, pool, keys, budget) for _ in range(n)]
     return scalar(rng, nulls, pool)
 
 
